@@ -336,7 +336,9 @@ def run_system(spec):
         ok = True
         for _, mi in errs:
             s = srcidx.get(names[mi], first_of[names[mi]])
-            if s == mi or not isclose_only_difference(toks[mi], toks[s]):
+            # the finding is about the documented choice "the first molecule of a name provides the ITP";
+            # an ITP taken from any other molecule is a different failure and is not downgraded
+            if s == mi or s != first_of[names[mi]] or not isclose_only_difference(toks[mi], toks[s]):
                 ok = False
         if ok:
             finding = 'F-C03-2'
@@ -573,13 +575,12 @@ for i in range(60 if chk.thorough else 12):
     a = instantiate(rng, t, allow_near=False)
     b = instantiate(rng, t, allow_near=False)
     _, at = b['nodes'][rng.randrange(len(b['nodes']))]
-    kind = rng.choice(['charge', 'mass', 'charge_group', 'resid'])
+    kind = rng.choice(['charge', 'mass', 'charge_group', 'atomid'])
     if kind == 'charge':
         c = at.get('charge', ('f', UNIT))
         base = c[1] if isinstance(c, tuple) else UNIT
         for _, x in a['nodes'] + b['nodes']:
-            if 'charge' in x or x is at:
-                x['charge'] = ('f', base)
+            x['charge'] = ('f', base)
         at['charge'] = ('f', base + rng.choice([1000, -1000, 3000]))      # 1e-9 .. 3e-9 away
     elif kind == 'mass':
         for _, x in a['nodes'] + b['nodes']:
@@ -590,10 +591,14 @@ for i in range(60 if chk.thorough else 12):
             x['charge_group'] = 200000
         at['charge_group'] = 200001
     else:
-        kind = 'resid9999'          # resid differing by isclose needs >= 100000, beyond the PDB/GRO columns:
-        for _, x in a['nodes'] + b['nodes']:     # use the widest value whose neighbours are still close: none
-            x['resid'] = 9999                    # -> below 1e5 an integer step is never isclose: control case
-        at['resid'] = 9998
+        # control: atom ids within the tolerance (same order): the molecules share a name although an
+        # attribute differs, but the ITP does not show atom ids, so the written topologies are identical
+        kind = 'atomid_control'
+        for j, (_, x) in enumerate(a['nodes']):
+            x['atomid'] = 200000 + 10 * j
+        for j, (_, x) in enumerate(b['nodes']):
+            x['atomid'] = 200000 + 10 * j
+        at['atomid'] += 1
     mols = [a, b] if rng.random() < 0.5 else [a, instantiate(rng, gen_template(rng, 1)), b]
     chk.count('isclose_stream=' + kind)
     cases.append(('isclose-%d' % i, {'dedup': True, 'mols': mols}, 'isclose'))
